@@ -21,6 +21,7 @@ package payload
 //@ func (*Headers).DecodeBinary
 //@ requires p != nil && io.validR(br)
 //@ opt frame off
+//@ opt alloc-bound 2000
 //@ loop 0 invariant io.validR(br)
 //@ func (*GetBlocks).DecodeBinary
 //@ requires p != nil && io.validR(br)
